@@ -17,7 +17,8 @@ LEVEL_NOTE = 'trusted: vk/wave.py STA/decoder, vk/graph.py; exact float32 arithm
 DESIGN_REF = 'DESIGN.md section 3 C04'
 LEVEL = 'exploration'
 RULE = ('Cases as C03 (mostly memory reuse off so every line is observable; one case in five with reuse on, where only the captured rows are checked; one in three on a simulator object that processed another stimulus before), single delay dataset. Non-trivial iff some waveform has >= 2 finite entries. '
-        'Distinct = digest of all case fields incl. shift / scale.')
+        'Distinct = digest of all case fields incl. shift / scale.'
+        ' One large case per shard; scales 2^-40..2^40; memories are compared as waveforms (entries up to each terminator, below c_len).')
 ASSUMPTIONS = ['times k/4 with k < 1024, delays k/4 with k < 64, shifts in {1/4..64}, scales 2^-40..2^40: every sum is exact in float32',
                'strict monotonicity is only demanded when all four delay entries of every line are equal']
 REACH = {'wave_sim._wave_eval': ('wave_sim.py', 155, 265)}
